@@ -1,5 +1,5 @@
 (* template (reduced to copy) and pacman: declared state, idempotence, prediction. *)
-From Coq Require Import List String Ascii Bool NArith Lia.
+From Coq Require Import List String Ascii Bool NArith Arith Lia.
 From RashV Require Import Fs Octal OctalProofs StateMods StateSpec Pacman FsLemmas CopyProofs FileProofs.
 Import ListNotations.
 Open Scope list_scope.
@@ -165,29 +165,49 @@ Definition to_remove (p : pparams) (d : db) : list string :=
   | PSync => diff (explicit d) (dedup (pp_names p))
   end.
 Definition nonempty (l : list string) : bool := match l with [] => false | _ => true end.
+
+Definition pre_db (p : pparams) (d : db) : db := if pp_update_cache p then db_refresh d else d.
 Definition final_db (p : pparams) (d : db) : db :=
   let up := andb (pp_upgrade p) (upgradable d) in
   let d1 := if up then db_upgrade d else d in
   let d2 := if nonempty (to_install p d) then db_sync d1 (to_install p d) else d1 in
   if nonempty (to_remove p d) then db_remove d2 (to_remove p d) else d2.
 
+Lemma pre_installed p d : installed (pre_db p d) = installed d.
+Proof. unfold pre_db. destruct (pp_update_cache p); reflexivity. Qed.
+Lemma pre_explicit p d : explicit (pre_db p d) = explicit d.
+Proof. unfold pre_db. destruct (pp_update_cache p); reflexivity. Qed.
+Lemma pre_sysver p d : sysver (pre_db p d) = sysver d.
+Proof. unfold pre_db. destruct (pp_update_cache p); reflexivity. Qed.
+Lemma pre_to_install p d : to_install p (pre_db p d) = to_install p d.
+Proof. unfold to_install. now rewrite pre_installed, pre_explicit. Qed.
+Lemma pre_to_remove p d : to_remove p (pre_db p d) = to_remove p d.
+Proof. unfold to_remove. now rewrite pre_installed, pre_explicit. Qed.
+Lemma pre_known_sync p d : known_sync_dependency p (pre_db p d) = known_sync_dependency p d.
+Proof. unfold known_sync_dependency. now rewrite pre_installed, pre_explicit. Qed.
+
+(* the real run: refresh first (if asked), then everything is decided on the refreshed database *)
 Lemma pacman_real_spec p s :
+  let d0 := pre_db p (pdb s) in
   exists lg, pacman p false s =
-    ({| pr_changed := orb (andb (pp_upgrade p) (upgradable (pdb s)))
-                          (orb (nonempty (to_install p (pdb s))) (nonempty (to_remove p (pdb s))));
-        pr_installed := to_install p (pdb s); pr_removed := to_remove p (pdb s);
-        pr_upgraded := andb (pp_upgrade p) (upgradable (pdb s)) |},
-     {| pdb := final_db p (pdb s); plog := lg |}).
+    ({| pr_changed := orb (andb (pp_upgrade p) (upgradable d0))
+                          (orb (nonempty (to_install p d0)) (nonempty (to_remove p d0)));
+        pr_installed := to_install p d0; pr_removed := to_remove p d0;
+        pr_upgraded := andb (pp_upgrade p) (upgradable d0) |},
+     {| pdb := final_db p d0; plog := lg |}).
 Proof.
-  unfold pacman, final_db, to_install, to_remove. cbn [negb andb].
-  destruct (pp_state p), (pp_update_cache p), (pp_upgrade p); cbn [andb plog1 pdb plog];
-    destruct (upgradable (pdb s)) eqn:Eu; cbn [negb andb plog1 pdb plog db_upgrade installed explicit upgradable nonempty];
+  unfold pacman, final_db, to_install, to_remove, pre_db. cbn [negb andb]. rewrite andb_true_r.
+  destruct (pp_update_cache p); cbn [plog1 pdb plog];
+  match goal with |- context [upgradable ?d] => generalize d; intro d0 end;
+  destruct (pp_state p), (pp_upgrade p); cbn [andb plog1 pdb plog];
+    destruct (upgradable d0) eqn:Eu; cbn [negb andb plog1 pdb plog db_upgrade installed explicit nonempty];
     repeat match goal with
     | |- context [diff ?a ?b] => destruct (diff a b) eqn:?
     | |- context [inter ?a ?b] => destruct (inter a b) eqn:?
     end; cbn [nonempty orb plog1 pdb plog]; eexists; reflexivity.
 Qed.
 
+(* check mode: no refresh; everything is decided on the database as it is *)
 Lemma pacman_check_spec p s :
   exists lg, pacman p true s =
     ({| pr_changed := orb (andb (pp_upgrade p) (upgradable (pdb s)))
@@ -205,11 +225,28 @@ Proof.
     end; cbn [nonempty orb plog1 pdb plog]; eexists; reflexivity.
 Qed.
 
-(* C06, pacman: check mode reports exactly what the real run reports *)
-Lemma pacman_predicts p s : fst (pacman p true s) = fst (pacman p false s).
+(* C06, pacman: check mode reports exactly what the real run reports, unless the refresh that check
+   mode skips would change the answer to "upgradable?" (K24) *)
+Lemma pacman_predicts p s :
+  known_check_skips_refresh p (pdb s) = false -> fst (pacman p true s) = fst (pacman p false s).
 Proof.
-  destruct (pacman_check_spec p s) as [l1 ->]. destruct (pacman_real_spec p s) as [l2 ->]. reflexivity.
+  intro K. destruct (pacman_check_spec p s) as [l1 ->]. destruct (pacman_real_spec p s) as [l2 ->].
+  cbn [fst]. rewrite pre_to_install, pre_to_remove.
+  assert (E : andb (pp_upgrade p) (upgradable (pre_db p (pdb s))) = andb (pp_upgrade p) (upgradable (pdb s))).
+  { unfold known_check_skips_refresh, pre_db in *. destruct (pp_update_cache p); [|reflexivity].
+    destruct (pp_upgrade p); [|reflexivity]. cbn [andb] in *.
+    destruct (upgradable (pdb s)), (upgradable (db_refresh (pdb s))); cbn in K; congruence. }
+  rewrite E. reflexivity.
 Qed.
+
+(* K24 is a real divergence of the model (and of the code, see known_findings.json) *)
+Lemma K24_check_skips_refresh_refuted :
+  let d := {| installed := []; explicit := []; sysver := 1; dbver := 1; upstream := 2 |} in
+  let p := {| pp_names := []; pp_state := PPresent; pp_update_cache := true; pp_upgrade := true |} in
+  pr_changed (fst (pacman p true {| pdb := d; plog := [] |})) = false
+  /\ pr_changed (fst (pacman p false {| pdb := d; plog := [] |})) = true
+  /\ known_check_skips_refresh p d = true.
+Proof. cbv zeta. repeat split; vm_compute; reflexivity. Qed.
 
 (* membership in the final database *)
 Lemma final_installed p d x :
@@ -234,46 +271,70 @@ Proof.
     (destruct (mem x (installed d)) eqn:E; [apply mem_In in E | apply mem_false in E]); tauto.
 Qed.
 
-(* C04, pacman: the declared package state holds after a real run (outside K19) *)
-Lemma pacman_declared p s :
-  known_sync_dependency p (pdb s) = false ->
-  pdeclared_b p (pdb (snd (pacman p false s))) = true.
+Lemma final_versions p d :
+  sysver (final_db p d) = (if andb (pp_upgrade p) (upgradable d) then dbver d else sysver d)
+  /\ dbver (final_db p d) = dbver d /\ upstream (final_db p d) = upstream d.
 Proof.
-  intro K. destruct (pacman_real_spec p s) as [lg ->]. cbn [snd pdb].
+  unfold final_db.
+  destruct (nonempty (to_remove p d)), (nonempty (to_install p d)), (andb (pp_upgrade p) (upgradable d));
+    cbn [db_sync db_remove db_upgrade sysver dbver upstream]; auto.
+Qed.
+
+Lemma final_declared p d :
+  known_sync_dependency p d = false -> pdeclared_b p (final_db p d) = true.
+Proof.
+  intro K.
   unfold pdeclared_b, known_sync_dependency in *.
   destruct (pp_state p) eqn:Est.
   - apply subset_spec. intros x Hx. apply final_installed. unfold to_install, to_remove. rewrite Est.
     rewrite In_diff, In_dedup. split; [|cbn; tauto].
-    destruct (mem x (installed (pdb s))) eqn:E; [left; now apply mem_In|right; split; [assumption|now apply mem_false]].
+    destruct (mem x (installed d)) eqn:E; [left; now apply mem_In|right; split; [assumption|now apply mem_false]].
   - apply forallb_forall. intros x Hx. apply negb_true_iff, mem_false. rewrite final_installed.
     unfold to_install, to_remove. rewrite Est. rewrite In_inter, In_dedup. cbn [In]. tauto.
-  - assert (K' : forall x, In x (pp_names p) -> In x (installed (pdb s)) -> In x (explicit (pdb s))).
-    { intros x Hx Hi. destruct (mem x (explicit (pdb s))) eqn:E; [now apply mem_In|]. exfalso.
-      assert (existsb (fun x => andb (mem x (installed (pdb s))) (negb (mem x (explicit (pdb s))))) (pp_names p) = true).
+  - assert (K' : forall x, In x (pp_names p) -> In x (installed d) -> In x (explicit d)).
+    { intros x Hx Hi. destruct (mem x (explicit d)) eqn:E; [now apply mem_In|]. exfalso.
+      assert (existsb (fun x => andb (mem x (installed d)) (negb (mem x (explicit d)))) (pp_names p) = true).
       { apply existsb_exists. exists x. split; [assumption|]. apply mem_In in Hi. now rewrite Hi, E. }
       congruence. }
     apply andb_true_iff. split; apply subset_spec; intros x Hx.
     + apply final_explicit. unfold to_install, to_remove. rewrite Est. rewrite !In_diff, In_dedup.
       split; [|tauto].
-      destruct (mem x (explicit (pdb s))) eqn:E; [left; now apply mem_In|]. apply mem_false in E.
+      destruct (mem x (explicit d)) eqn:E; [left; now apply mem_In|]. apply mem_false in E.
       right. split; [tauto|]. intro Hi. apply E. now apply K'.
     + apply final_explicit in Hx. unfold to_install, to_remove in Hx. rewrite Est in Hx.
       rewrite !In_diff, In_dedup in Hx.
       destruct (mem x (pp_names p)) eqn:E; [now apply mem_In|]. apply mem_false in E. tauto.
 Qed.
 
-(* C05, pacman: once the declared state holds nothing is installed or removed again *)
-Lemma pacman_idempotent p s :
+(* C04, pacman: the declared package state holds after a real run (outside K19); with upgrade the
+   installed level has caught up with everything the (refreshed) sync database offers *)
+Lemma pacman_declared p s :
   known_sync_dependency p (pdb s) = false ->
   let d' := pdb (snd (pacman p false s)) in
-  to_install p d' = [] /\ to_remove p d' = [] /\ upgradable d' = andb (upgradable (pdb s)) (negb (pp_upgrade p)).
+  pdeclared_b p d' = true
+  /\ (pp_upgrade p = true -> upgradable d' = false)
+  /\ (pp_update_cache p = true -> dbver d' = upstream (pdb s)).
 Proof.
-  intro K. pose proof (pacman_declared p s K) as D. cbn zeta.
-  destruct (pacman_real_spec p s) as [lg E]. rewrite E in *. cbn [snd pdb] in *.
+  intro K. cbv zeta. destruct (pacman_real_spec p s) as [lg ->]. cbn [snd pdb].
+  split; [apply final_declared; now rewrite pre_known_sync|].
+  destruct (final_versions p (pre_db p (pdb s))) as (Hs & Hd & Hu).
+  split.
+  - intro Up. unfold upgradable at 1. rewrite Hs, Hd, Up. cbn [andb].
+    destruct (upgradable (pre_db p (pdb s))) eqn:E.
+    + apply Nat.ltb_ge. lia.
+    + exact E.
+  - intro Uc. rewrite Hd. unfold pre_db. rewrite Uc. reflexivity.
+Qed.
+
+Lemma final_fixpoint p d :
+  known_sync_dependency p d = false ->
+  to_install p (final_db p d) = [] /\ to_remove p (final_db p d) = [].
+Proof.
+  intro K. pose proof (final_declared p d K) as D.
   assert (NIL : forall l : list string, (forall x, ~ In x l) -> l = []).
   { intros [|a l] H; [reflexivity|]. exfalso. apply (H a). now left. }
   unfold pdeclared_b in D. unfold to_install, to_remove.
-  split; [|split].
+  split.
   - destruct (pp_state p) eqn:Est; [| reflexivity |].
     + apply NIL. intros x. rewrite In_diff, In_dedup. rewrite subset_spec in D. intros [H1 H2]. auto.
     + apply NIL. intros x. rewrite In_diff, In_dedup. apply andb_true_iff in D as [D1 D2].
@@ -283,57 +344,110 @@ Proof.
       specialize (D x H1). apply negb_true_iff, mem_false in D. auto.
     + apply NIL. intros x. rewrite In_diff, In_dedup. apply andb_true_iff in D as [D1 D2].
       rewrite subset_spec in D2. intros [H1 H2]. auto.
-  - unfold final_db.
-    assert (U : forall d l, upgradable (db_sync d l) = upgradable d) by reflexivity.
-    assert (U' : forall d l, upgradable (db_remove d l) = upgradable d) by reflexivity.
-    destruct (nonempty (to_remove p (pdb s))), (nonempty (to_install p (pdb s))); rewrite ?U', ?U;
-      destruct (pp_upgrade p); destruct (upgradable (pdb s)) eqn:Eu; cbn [andb negb db_upgrade upgradable]; rewrite ?Eu; reflexivity.
+Qed.
+
+(* C05, pacman: once the declared state holds nothing is installed or removed again *)
+Lemma pacman_idempotent p s :
+  known_sync_dependency p (pdb s) = false ->
+  let d' := pdb (snd (pacman p false s)) in
+  to_install p d' = [] /\ to_remove p d' = [] /\ (pp_upgrade p = true -> upgradable d' = false).
+Proof.
+  intro K. cbv zeta. destruct (pacman_declared p s K) as (_ & Hu & _).
+  destruct (pacman_real_spec p s) as [lg E]. rewrite E in *. cbn [snd pdb] in *.
+  rewrite <- pre_known_sync in K. destruct (final_fixpoint _ _ K). auto.
+Qed.
+
+Lemma pre_db_fixed p d : (pp_update_cache p = true -> dbver d = upstream d) -> pre_db p d = d.
+Proof.
+  unfold pre_db. destruct (pp_update_cache p); [|reflexivity]. intro H. specialize (H eq_refl).
+  destruct d as [i e sv dv uv]. cbn in *. subst. reflexivity.
+Qed.
+
+Lemma final_db_noop p d :
+  andb (pp_upgrade p) (upgradable d) = false -> to_install p d = [] -> to_remove p d = [] -> final_db p d = d.
+Proof. intros H1 H2 H3. unfold final_db. rewrite H1, H2, H3. reflexivity. Qed.
+
+(* C05, pacman, the whole statement: the identical task run again reports ok and leaves the database
+   (package sets, installed level AND sync database) exactly as the first run left it *)
+Lemma pacman_second_run p s :
+  known_sync_dependency p (pdb s) = false ->
+  let s1 := snd (pacman p false s) in
+  pr_changed (fst (pacman p false s1)) = false /\ pdb (snd (pacman p false s1)) = pdb s1.
+Proof.
+  intro K. cbv zeta.
+  destruct (pacman_idempotent p s K) as (Hi & Hr & Hu).
+  destruct (pacman_declared p s K) as (_ & _ & Hc).
+  set (s1 := snd (pacman p false s)) in *.
+  assert (P : pre_db p (pdb s1) = pdb s1).
+  { apply pre_db_fixed. intro Uc. rewrite (Hc Uc).
+    subst s1. destruct (pacman_real_spec p s) as [lg ->]. cbn [snd pdb].
+    destruct (final_versions p (pre_db p (pdb s))) as (_ & _ & ->). unfold pre_db. now destruct (pp_update_cache p). }
+  assert (U : andb (pp_upgrade p) (upgradable (pdb s1)) = false).
+  { destruct (pp_upgrade p); [|reflexivity]. now rewrite Hu. }
+  destruct (pacman_real_spec p s1) as [lg ->]. cbn [fst snd pr_changed pdb]. rewrite P, U, Hi, Hr.
+  split; [reflexivity|]. apply final_db_noop; assumption.
 Qed.
 
 (* C04, pacman: changed is reported iff the package state changes (outside K19) *)
 Lemma nonempty_In l : nonempty l = true -> exists x : string, In x l.
 Proof. destruct l as [|a l]; [discriminate|]. exists a. now left. Qed.
 
+(* ok: package sets and installed level are untouched (the sync database, a cache, may have been
+   refreshed: that is what update_cache asks for, and it is never reported as a change) *)
 Lemma pacman_unchanged_db p s :
-  pr_changed (fst (pacman p false s)) = false -> pdb (snd (pacman p false s)) = pdb s.
+  pr_changed (fst (pacman p false s)) = false ->
+  let d' := pdb (snd (pacman p false s)) in
+  installed d' = installed (pdb s) /\ explicit d' = explicit (pdb s) /\ sysver d' = sysver (pdb s)
+  /\ (pp_update_cache p = false -> d' = pdb s).
 Proof.
-  destruct (pacman_real_spec p s) as [lg ->]. cbn [fst snd pr_changed pdb].
+  cbv zeta. destruct (pacman_real_spec p s) as [lg ->]. cbn [fst snd pr_changed pdb].
   intro H. apply orb_false_iff in H as [H1 H2]. apply orb_false_iff in H2 as [H2 H3].
-  unfold final_db. rewrite H1, H2, H3. reflexivity.
+  unfold final_db. rewrite H1, H2, H3. rewrite pre_installed, pre_explicit, pre_sysver.
+  repeat split. intro Uc. unfold pre_db. now rewrite Uc.
 Qed.
 
 Definition db_differs (d d' : db) : Prop :=
-  upgradable d <> upgradable d'
+  sysver d <> sysver d'
   \/ (exists x, ~ (In x (installed d) <-> In x (installed d')))
   \/ (exists x, ~ (In x (explicit d) <-> In x (explicit d'))).
 
-Lemma pacman_changed_db p s :
-  known_sync_dependency p (pdb s) = false ->
-  pr_changed (fst (pacman p false s)) = true -> db_differs (pdb s) (pdb (snd (pacman p false s))).
+Lemma final_changed_db p d :
+  known_sync_dependency p d = false ->
+  orb (andb (pp_upgrade p) (upgradable d)) (orb (nonempty (to_install p d)) (nonempty (to_remove p d))) = true ->
+  db_differs d (final_db p d).
 Proof.
-  intro K. destruct (pacman_real_spec p s) as [lg ->]. cbn [fst snd pr_changed pdb].
-  assert (K' : pp_state p = PSync -> forall x, In x (pp_names p) -> In x (installed (pdb s)) -> In x (explicit (pdb s))).
-  { intros Est x Hx Hi. destruct (mem x (explicit (pdb s))) eqn:E; [now apply mem_In|]. exfalso.
+  intros K H.
+  assert (K' : pp_state p = PSync -> forall x, In x (pp_names p) -> In x (installed d) -> In x (explicit d)).
+  { intros Est x Hx Hi. destruct (mem x (explicit d)) eqn:E; [now apply mem_In|]. exfalso.
     unfold known_sync_dependency in K. rewrite Est in K.
-    assert (existsb (fun x => andb (mem x (installed (pdb s))) (negb (mem x (explicit (pdb s))))) (pp_names p) = true).
+    assert (existsb (fun x => andb (mem x (installed d)) (negb (mem x (explicit d)))) (pp_names p) = true).
     { apply existsb_exists. exists x. split; [assumption|]. apply mem_In in Hi. now rewrite Hi, E. }
     congruence. }
-  intro H. destruct (nonempty (to_remove p (pdb s))) eqn:Er.
-  - (* something is removed: it was installed (or explicit) and is not afterwards *)
-    right. apply nonempty_In in Er as [x Hx].
+  destruct (nonempty (to_remove p d)) eqn:Er.
+  - right. apply nonempty_In in Er as [x Hx].
     unfold to_remove in Hx. destruct (pp_state p) eqn:Est; cbn in Hx; [tauto| |].
     + left. exists x. rewrite final_installed. unfold to_remove at 1. rewrite Est.
       pose proof Hx as Hx'. apply In_inter in Hx'. tauto.
     + right. exists x. rewrite final_explicit. unfold to_remove at 1. rewrite Est.
       pose proof Hx as Hx'. apply In_diff in Hx' as [Hx' _]. tauto.
-  - destruct (nonempty (to_install p (pdb s))) eqn:Ei.
+  - destruct (nonempty (to_install p d)) eqn:Ei.
     + right. left. apply nonempty_In in Ei as [x Hx]. exists x. rewrite final_installed.
-      assert (Hn : ~ In x (installed (pdb s))).
+      assert (Hn : ~ In x (installed d)).
       { unfold to_install in Hx. destruct (pp_state p) eqn:Est; cbn in Hx; [| tauto |].
         - apply In_diff in Hx. tauto.
         - apply In_diff in Hx as [Hx1 Hx2]. rewrite In_dedup in Hx1. intro Hi. apply Hx2. apply (K' eq_refl); assumption. }
-      assert (~ In x (to_remove p (pdb s))) by (destruct (to_remove p (pdb s)); [tauto|discriminate Er]).
+      assert (~ In x (to_remove p d)) by (destruct (to_remove p d); [tauto|discriminate Er]).
       tauto.
-    + left. cbn [orb] in H. rewrite orb_false_r in H. apply andb_true_iff in H as [H1 H2].
-      unfold final_db. rewrite Er, Ei, H1, H2. cbn. discriminate.
+    + left. cbn [orb] in H. rewrite orb_false_r in H.
+      destruct (final_versions p d) as (Hs & _). rewrite Hs, H.
+      apply andb_true_iff in H as [_ H2]. unfold upgradable in H2. apply Nat.ltb_lt in H2. lia.
+Qed.
+
+Lemma pacman_changed_db p s :
+  known_sync_dependency p (pdb s) = false ->
+  pr_changed (fst (pacman p false s)) = true -> db_differs (pdb s) (pdb (snd (pacman p false s))).
+Proof.
+  intros K. destruct (pacman_real_spec p s) as [lg ->]. cbn [fst snd pr_changed pdb]. intro H.
+  rewrite <- pre_known_sync in K. pose proof (final_changed_db _ _ K H) as D.
+  unfold db_differs in *. now rewrite pre_sysver, pre_installed, pre_explicit in D.
 Qed.
